@@ -49,5 +49,6 @@ def replay(path):
     print(json.dumps(f or d['broken'], indent=1, default=str)[:3000])
     if f and f.get('oracle') == 'c20':
         cfg = {k: f[k] for k in ('method', 'sde_type', 'noise', 'd', 'm', 'batch', 'seed', 'dt', 'row', 'kind', 'poison', 'grad_free') if k in f}
-        print('now:', osde.c20_case(**cfg))
+        print('now:', osde.c20_case(**cfg) if f.get('kind') != 'logqp' else osde.c20_logqp_case(
+            **{k: f[k] for k in ('method', 'sde_type', 'd', 'batch', 'seed', 'dt', 'row', 'scales')}))
     return 1
